@@ -25,6 +25,7 @@ type simcfg struct {
 	cache    int
 	faults   bool
 	dagrun   bool
+	live     int
 	witness  bool
 	thorough bool
 }
@@ -379,6 +380,9 @@ func runHistory(out *bufio.Writer, seed int64, hid int, cfg simcfg) (stats map[s
 			}
 		}
 	}
+	if cfg.live > 0 {
+		h.liveness(cfg.live)
+	}
 	h.finalOracles()
 	if cfg.dagrun {
 		h.dagrun(cfg.thorough)
@@ -424,6 +428,7 @@ func main() {
 	faults := flag.Bool("faults", false, "inject store failures on new-event writes")
 	dagrun := flag.Bool("dagrun", false, "C03: re-feed the global DAG under orders / cuts / stores / batchings")
 	thorough := flag.Bool("thorough", false, "more variants")
+	live := flag.Int("live", 0, "C06: after the adversarial prefix run fair all-pairs cycles until quiescence, at most this many")
 	witness := flag.Bool("c03witness", false, "search a minimal batching witness")
 	flag.Parse()
 	out := bufio.NewWriterSize(os.Stdout, 1<<20)
@@ -434,7 +439,7 @@ func main() {
 		if i%7 != 0 && n < 3 && *maxn >= 3 {
 			n = 3 + master.Intn(*maxn-2)
 		}
-		cfg := simcfg{n: n, steps: *steps/2 + master.Intn(*steps), dyn: *dyn, fairTail: *tail, cache: *cache, faults: *faults, dagrun: *dagrun, thorough: *thorough, witness: *witness}
+		cfg := simcfg{n: n, steps: *steps/2 + master.Intn(*steps), dyn: *dyn, fairTail: *tail, cache: *cache, faults: *faults, dagrun: *dagrun, thorough: *thorough, live: *live, witness: *witness}
 		runHistory(out, master.Int63(), i, cfg)
 	}
 }
